@@ -187,6 +187,46 @@ Definition f10_cops : list cop :=
   [CAttempt 2 [(2, 1); (3, 1)]; CAttempt 2 [(4, 1)]]%positive.
 Definition f10_world : world := world_of (f10_case f10_cops).
 
+Definition partial_bind_b (s' : sess) (b : positive * option positive) (jid : positive) : bool :=
+  match jobs s' !! jid, heap s' !! b.1 with
+  | Some j, Some t =>
+    bool_decide (t_job t = jid) && bool_decide (b ∈ binds s') &&
+    negb (bool_decide (j_min j <= count_tasks cluster_ready (tasks_in (heap s') (j_tasks j))))
+  | _, _ => false
+  end.
+
+Lemma partial_bind_b_sound s' b jid : partial_bind_b s' b jid = true ->
+  exists j, b ∈ binds s' /\ (exists t, heap s' !! b.1 = Some t /\ jobs s' !! t_job t = Some j) /\ ~ gang_ok (heap s') j.
+Proof.
+  unfold partial_bind_b. destruct (jobs s' !! jid) as [j|] eqn:Ej; [|done].
+  destruct (heap s' !! b.1) as [t|] eqn:Et; [|done].
+  intros [[H1%bool_decide_eq_true H2%bool_decide_eq_true]%andb_true_iff H3%negb_true_iff]%andb_true_iff.
+  apply bool_decide_eq_false in H3.
+  exists j. split; [done|]. split; [exists t; by rewrite H1|]. by intros [Hmin _].
+Qed.
+
+Definition fresh_statuses_b (s : sess) : bool :=
+  forallb (fun it : positive * task =>
+     negb (bool_decide (t_status it.2 = Allocated)) && negb (bool_decide (t_status it.2 = Binding)) &&
+     negb (bool_decide (t_status it.2 = Pipelined))) (map_to_list (heap s)).
+Lemma fresh_statuses_b_sound s : fresh_statuses_b s = true ->
+  forall i t, heap s !! i = Some t -> t_status t <> Allocated /\ t_status t <> Binding /\ t_status t <> Pipelined.
+Proof.
+  intros H i t Et. pose proof (proj1 (forallb_forall _ _) H) as H'.
+  apply elem_of_map_to_list, elem_of_list_In in Et. specialize (H' _ Et). simpl in H'.
+  apply andb_true_iff in H' as [[H1%negb_true_iff H2%negb_true_iff]%andb_true_iff H3%negb_true_iff].
+  apply bool_decide_eq_false in H1, H2, H3. done.
+Qed.
+
+Definition f10_check : bool :=
+  let w := f10_world in
+  ginvb (heap (w_sess w)) (jobs (w_sess w)) && bool_decide (refuse_bind (w_sess w) = ∅) &&
+  bool_decide (stmts (w_sess w) = ∅) && fresh_statuses_b (w_sess w) &&
+  negb (guardedb eps0 w f10_cops) &&
+  partial_bind_b (w_sess (run eps0 w f10_cops)) (4%positive, Some 1%positive) 2.
+Lemma f10_check_true : f10_check = true.
+Proof. vm_compute. reflexivity. Qed.
+
 Theorem bind_without_guard_refuted :
   exists eps w ops,
     gang_inv (w_sess w) /\ refuse_bind (w_sess w) = ∅ /\ stmts (w_sess w) = ∅ /\
@@ -195,22 +235,13 @@ Theorem bind_without_guard_refuted :
     let s' := w_sess (run eps w ops) in
     exists b j, b ∈ binds s' /\ (exists t, heap s' !! b.1 = Some t /\ jobs s' !! t_job t = Some j) /\ ~ gang_ok (heap s') j.
 Proof.
-  exists eps0, f10_world, f10_cops.
-  split; [apply ginvb_sound; by vm_compute|]. split; [by vm_compute|]. split; [by vm_compute|].
-  split.
-  { assert (H : map_Forall (fun _ t => t_status t <> Allocated /\ t_status t <> Binding /\ t_status t <> Pipelined)
-                           (heap (w_sess f10_world))).
-    { apply map_Forall_to_list. vm_compute. repeat constructor; done. }
-    exact H. }
-  split; [by vm_compute|].
-  set (s' := w_sess (run eps0 f10_world f10_cops)).
-  destruct (jobs s' !! 2%positive) as [j|] eqn:Ej; [|by vm_compute in Ej].
-  exists (4%positive, Some 1%positive), j. split; [vm_compute; by left|].
-  split.
-  { destruct (heap s' !! 4%positive) as [t|] eqn:Et; [|by vm_compute in Et].
-    exists t. split; [done|]. assert (t_job t = 2%positive) as ->; [|done].
-    vm_compute in Et. by injection Et as <-. }
-  intros [Hmin _]. vm_compute in Ej. injection Ej as <-. vm_compute in Hmin. by apply Hmin.
+  exists eps0, f10_world, f10_cops. pose proof f10_check_true as H. unfold f10_check in H.
+  apply andb_true_iff in H as [H H6]. apply andb_true_iff in H as [H H5]. apply andb_true_iff in H as [H H4].
+  apply andb_true_iff in H as [H H3]. apply andb_true_iff in H as [H1 H2].
+  split; [by apply ginvb_sound|]. split; [by apply bool_decide_eq_true in H2|].
+  split; [by apply bool_decide_eq_true in H3|]. split; [by apply fresh_statuses_b_sound|].
+  split; [by apply negb_true_iff in H5|].
+  destruct (partial_bind_b_sound _ _ _ H6) as (j & Hj). exists (4%positive, Some 1%positive), j. exact Hj.
 Qed.
 
 (* ---------- non-vacuity ---------- *)
@@ -251,28 +282,29 @@ Example ex_committed :
   hyps_okb (ex_case ex_cops 7000) = true /\
   binds_of (ex_case ex_cops 7000) = [(4, Some 1); (3, Some 1); (2, Some 1)]%positive /\
   status_after (ex_case ex_cops 7000) 2 = Some Binding.
-Proof. by vm_compute. Qed.
+Proof. vm_compute. repeat split. Qed.
 
 (* idle 2000m + 2000m releasing: t2, t3 Allocated, t4 Pipelined: pipelined only, statement kept, no bind *)
 Example ex_kept :
   hyps_okb (ex_case ex_cops 4000) = true /\
   binds_of (ex_case ex_cops 4000) = [] /\
   status_after (ex_case ex_cops 4000) 2 = Some Allocated /\ status_after (ex_case ex_cops 4000) 4 = Some Pipelined.
-Proof. by vm_compute. Qed.
+Proof. vm_compute. repeat split. Qed.
 
-(* idle 1000m + 2000m releasing: t2 Allocated, t3 Pipelined, t4 nowhere: neither ready nor pipelined:
+(* idle 500m + 2000m releasing: t2, t3 Pipelined, t4 fits nowhere: neither ready nor pipelined:
    discarded, everything Pending again, no bind *)
 Example ex_discarded :
-  hyps_okb (ex_case ex_cops 3000) = true /\
-  binds_of (ex_case ex_cops 3000) = [] /\
-  status_after (ex_case ex_cops 3000) 2 = Some Pending /\ status_after (ex_case ex_cops 3000) 3 = Some Pending.
-Proof. by vm_compute. Qed.
+  hyps_okb (ex_case ex_cops 2500) = true /\
+  binds_of (ex_case ex_cops 2500) = [] /\
+  status_after (ex_case ex_cops 2500) 2 = Some Pending /\ status_after (ex_case ex_cops 2500) 3 = Some Pending.
+Proof. vm_compute. repeat split. Qed.
 
 (* the theorem's hypotheses hold on the committed example, and its conclusion speaks about three binds *)
 Example ex_theorem_applies :
   let c := ex_case ex_cops 7000 in
   binds_ok (w_sess (world_of c)) (w_sess (run (cc_eps c) (world_of c) (cc_cops c))) /\ length (binds_of c) = 3%nat.
 Proof.
-  intros c. destruct (hyps_okb_sound c) as (H1 & H2 & H3 & H4); [by vm_compute|].
-  split; [exact (proj1 (bind_only_when_gang_ok_core _ _ _ H1 H2 H3 H4))|by vm_compute].
+  intros c. assert (Hc : hyps_okb c = true) by (vm_compute; reflexivity).
+  destruct (hyps_okb_sound c Hc) as (H1 & H2 & H3 & H4).
+  split; [exact (proj1 (bind_only_when_gang_ok_core _ _ _ H1 H2 H3 H4))|vm_compute; reflexivity].
 Qed.
